@@ -357,6 +357,7 @@ func (ex *Exec) applyContract(fc *FuncContract, key string, names []string, typs
 	// effects
 	if fc.HasMod && len(fc.Modifies) > 0 {
 		items := ex.evalModifies(fc.Modifies, pre, env)
+		ex.guardModifies(items, key, pos)
 		ex.havocItems(items, pre)
 	}
 	if fc.Pragmas["allocates"] != "no" {
@@ -656,10 +657,18 @@ func (ex *Exec) placeOf(e Expr, st *State, env *Env) (PtrV, types.Type) {
 		} else {
 			v := ex.eval(x.X, st, env)
 			pt, ok := v.T.Underlying().(*types.Pointer)
-			if !ok {
+			if ok {
+				base, bt = v.V.(PtrV), pt.Elem()
+			} else if id, isID := x.X.(EIdent); isID {
+				// a struct-typed variable: its cell (captured variable or local)
+				cp, ct, found := ex.placeOfIdent(id.Name, env)
+				if !found {
+					panic(unsupported("place: " + id.Name + " is neither a pointer nor an addressable variable"))
+				}
+				base, bt = cp, ct
+			} else {
 				panic(unsupported("place: selector base is not a pointer"))
 			}
-			base, bt = v.V.(PtrV), pt.Elem()
 		}
 		sty, ok := bt.Underlying().(*types.Struct)
 		if !ok {
@@ -672,8 +681,34 @@ func (ex *Exec) placeOf(e Expr, st *State, env *Env) (PtrV, types.Type) {
 		np := base
 		np.Path = append(append([]int(nil), base.Path...), idx...)
 		return np, ft
+	case EIdent:
+		if cp, ct, found := ex.placeOfIdent(x.Name, env); found {
+			return cp, ct
+		}
 	}
 	panic(unsupported(fmt.Sprintf("place: unsupported lvalue %v", e)))
+}
+
+// placeOfIdent: the cell of a captured variable or of a local variable, by name.
+func (ex *Exec) placeOfIdent(name string, env *Env) (PtrV, types.Type, bool) {
+	for _, fr := range []*Frame{env.frame(), ex.top} {
+		if fr == nil {
+			continue
+		}
+		for i, fv := range fr.fn.FreeVars {
+			if fv.Name() == name {
+				return fr.free[i].(PtrV), fv.Type().(*types.Pointer).Elem(), true
+			}
+		}
+		for v, rv := range fr.regs {
+			if a, ok := v.(*ssa.Alloc); ok && a.Comment == name {
+				if p, ok := rv.(PtrV); ok {
+					return p, a.Type().(*types.Pointer).Elem(), true
+				}
+			}
+		}
+	}
+	return PtrV{}, nil, false
 }
 
 // yield: in a function marked `pragma concurrent yes`, other goroutines may run between any two
@@ -732,4 +767,25 @@ func (ex *Exec) onceDo(c *ssa.CallCommon, args []Value, pos token.Pos) Value {
 	s2.pc = ex.vc.Define("pc", And(base.pc, was))
 	ex.st = ex.mergeStates([]*State{s1, s2})
 	return TupleV{}
+}
+
+// guardModifies: a callee that writes a location declared `guarded ... by mu` needs mu held.
+func (ex *Exec) guardModifies(items []modItem, callee string, pos token.Pos) {
+	if ex.top == nil || ex.top.contract == nil || len(ex.top.contract.Guarded) == 0 || ex.inYield {
+		return
+	}
+	for _, g := range ex.top.contract.Guarded {
+		for _, it := range items {
+			if it.level < 1 || !strings.Contains(it.keyPrefix, g.Label) {
+				continue
+			}
+			env := ex.topEnv()
+			env.fr = ex.fr
+			mu := ex.eval(g.E, ex.st, env)
+			r := ex.scalarOf(mu.V)
+			h := ex.heapGet("ghost<held>", ArrSort(SInt, SBool))
+			ex.vc.Oblige("lock", "write "+g.Label+" by "+callee, ex.st.pc, Sel(h, r), ex.posString(pos))
+			break
+		}
+	}
 }
